@@ -27,7 +27,7 @@ ASSUMPTIONS = ["two different rod elements never have identical element coordina
                "constructor data captured by lambda attributes (subsystems, xi, DOF counts) do not change after assembly"]
 BLIND_SPOTS = ["mutation of a cached array through an alias created in another function", "hash collisions of float keys"]
 
-CACHED_DECOS = ("cachedmethod",)
+CACHED_DECOS = ("cachedmethod", "cached")
 
 
 class Site:
@@ -51,6 +51,9 @@ def find_sites(ctx):
                     for k in d.keywords:
                         if k.arg == "key" and isinstance(k.value, ast.Lambda):
                             keyl = k.value
+                    shared = (dotted(d.func) or "").split(".")[-1] == "cached"
+                    if shared:
+                        cache_attr = f"<cache object of the decorator of {fn.name}>"
                     if cache_attr is None:
                         raise AnalysisError(f"cachedmethod at {ci.rel}:{fn.lineno}: cache accessor not recognised")
                     if keyl is None:
@@ -58,8 +61,30 @@ def find_sites(ctx):
                     else:
                         kp = func_params(keyl)
                         kn = {n.id for n in ast.walk(keyl.body) if isinstance(n, ast.Name)}
-                    sites.append(Site(ci.rel, ci, fn, cache_attr, kp, kn))
+                    site = Site(ci.rel, ci, fn, cache_attr, kp, kn)
+                    site.shared = shared
+                    sites.append(site)
     return sites
+
+
+def handmade_memo(ctx, rule, want_file):
+    """cachetools decorators are covered by R1-R4; this covers closures with `nonlocal` state that return the remembered value.
+    Expected count on the pinned tree: zero closures of that kind (the canary mutant plants one)."""
+    from .. import closures
+    rep = ctx.rep
+    n_fn = 0
+    for rel, mod in sorted(ctx.repo.modules.items()):
+        if not want_file(rel):
+            continue
+        for q, fn in mod.defs().items():
+            if not isinstance(fn, ast.FunctionDef) or "." in q:
+                continue
+            n_fn += 1
+            for inner, missing in closures.stale_memo_closures(fn):
+                rep.bad(rule, f"{rel}:{q}.{inner.name}", inner.name, f"`{inner.name}` remembers its last value and recomputes it only when its 'changed?' test fires, but that test "
+                        f"does not look at the parameter(s) {missing} which it passes on to the wrapped function: a call that differs only in {missing} is served the stale value "
+                        "(for a prescribed-motion Frame the coordinates never change while the time does)", f"{rel}:{inner.lineno}")
+    rep.ok(rule, "cardillo", f"{n_fn} top-level functions scanned for value-remembering closures", trivial=True)
 
 
 def r1_keys(ctx, sites, rule="C26.R1", want_cls=lambda ci: True):
@@ -72,6 +97,15 @@ def r1_keys(ctx, sites, rule="C26.R1", want_cls=lambda ci: True):
         C = f"{s.rel}:{s.cls.qual}.{s.fn.name}"
         if s.key_names is None:
             continue
+        if getattr(s, "shared", False):
+            # cachetools.cached on a method: ONE cache object for all instances of the class, so the instance is part of what
+            # the result depends on
+            if "self" in s.key_names:
+                rep.ok(rule, C, "shared cache (cachetools.cached): the key contains the instance")
+            else:
+                rep.bad(rule, C, f"key=... hashkey({', '.join(sorted(s.key_names - {'hashkey', 'self'}))})",
+                        "the method is memoised with cachetools.cached, whose cache object is shared by all instances, but the key does not contain `self`: a second "
+                        "instance evaluated with the same arguments is served the first instance's result", f"{s.rel}:{s.fn.lineno}")
         params = func_params(s.fn)[1:]
         body_reads = {n.id for st in s.fn.body for n in ast.walk(st) if isinstance(n, ast.Name) and isinstance(n.ctx, ast.Load)}
         for p in params:
@@ -94,6 +128,8 @@ def run(ctx):
     rep.rule("C26.R1", "key completeness (parameter liveness vs key; rods: N,N_xi = basis(xi) at every call site)", 40)
     rep.rule("C26.R2", "no stale state: writers of state read under a cache clear it", 16)
     rep.rule("C26.R3", "no in-place mutation of memoised results by callers", 80)
+    rep.rule("C26.R5", "hand-written memoisation (closures that remember their last value) compares every parameter it hands to the wrapped function", 0)
+    handmade_memo(ctx, "C26.R5", lambda rel: rel.startswith("cardillo/"))
     rep.rule("C26.R4", "one method per cache object; key lambda signature == method signature", 16)
     sites = find_sites(ctx)
     if len(sites) < 16:
@@ -422,6 +458,12 @@ MUTANTS = [
          old="key=lambda self, xi, el=None: hashkey(xi, el),", new="key=lambda self, xi, el=None: hashkey(xi),", expect="C26.R1"),
 ]
 MUTANTS = [m for m in MUTANTS if not m.get("optional")]
+CB_ = "cardillo/constraints/_base.py"
+MUTANTS += [
+    dict(id="c26-r5-seed", canary=True, what="[seeded by sub-agent] joint bases wrapped in a 'cache last evaluation' closure keyed on the coordinates only", file=CB_,
+         edits=[(CB_, "class PositionOrientationBase:\n", "def cache_last_evaluation(fun, local_qDOF):\n    q_last, value = None, None\n\n    def cached_fun(t, q):\n        nonlocal q_last, value\n        q_loc = q[local_qDOF]\n        if q_last is None or np.any(q_last != q_loc):\n            q_last, value = q_loc.copy(), fun(t, q)\n        return value\n\n    return cached_fun\n\n\nclass PositionOrientationBase:\n")],
+         expect="C26.R5"),
+]
 NEUTRAL = [
     dict(id="c26-n1", canary=True, what="copy before mutating is fine", file=RB,
          old="        r_OP_q[:, :] += np.einsum(\"ijk,j->ik\", self.A_IB_q(t, q), B_r_CP)\n        return r_OP_q",
